@@ -24,8 +24,8 @@ def _digest(arr):
 
 def _data(name):
     import numpy as np
-    rs = np.random.RandomState({"a": 1, "b": 2, "c": 3, "m": 4}[name])
-    shape = {"a": (8, 6), "b": (5, 9), "c": (8, 6), "m": (16, 12)}[name]
+    rs = np.random.RandomState({"a": 1, "b": 2, "c": 3, "m": 4, "v": 5}[name])
+    shape = {"a": (8, 6), "b": (5, 9), "c": (8, 6), "m": (16, 12), "v": (4, 5, 3)}[name]
     return rs.rand(*shape)
 
 
@@ -51,6 +51,20 @@ def execute(darsia, ctx, key):
             return darsia.H1_regularization(img, mu=mu, omega=omega)
         s = ctx.setdefault("J5", darsia.Jacobi(maxiter=5))
         return darsia.H1_regularization(img, mu=mu, omega=omega, solver=s)
+    if name == "H1dim":        # H1dim|img|mu|omega|dim : default solver, spatial dimension passed per call
+        return darsia.H1_regularization(_data(op[1]), mu=float(op[2]), omega=float(op[3]), dim=int(op[4]))
+    if name == "JACD":         # JACD|mass|diff|dim : same coefficients and mesh size, other spatial dimension
+        J = ctx.setdefault("J", darsia.Jacobi(maxiter=4))
+        J.update_params(dim=int(op[3]), mass_coeff=float(op[1]), diffusion_coeff=float(op[2]))
+        x0 = _data("v") if int(op[3]) == 3 else _data("a")
+        return J(x0.copy(), rhs=x0 * 2.0, h=1.0)
+    if name == "JACA":         # JACA|scale : array-valued coefficients, modified between calls by the caller
+        J = ctx.setdefault("JA", darsia.Jacobi(maxiter=3))
+        coeff = ctx.setdefault("coeff", np.ones((8, 6)))
+        coeff[...] = float(op[1])
+        J.update_params(dim=2, mass_coeff=1.0, diffusion_coeff=coeff)
+        x0 = _data("a")
+        return J(x0.copy(), rhs=x0 * 2.0, h=1.0)
     if name == "H1img":
         img = darsia.Image(_data(op[1]), space_dim=2, dimensions=[1.0, 1.0], scalar=True)
         return darsia.H1_regularization(img, mu=float(op[2])).img
@@ -96,7 +110,9 @@ def execute(darsia, ctx, key):
 ALPHABET = {
     "jacobi-default": ["H1|a|1.0|1.0|default", "H1|a|0.1|1.0|default", "H1|b|1.0|2.0|default", "H1img|a|0.1", "H1|a|0.1|1.0|explicit", "H1|c|1.0|1.0|explicit"],
     "tvd-default": ["SBTVD|a|0.5|1.0", "SBTVD|a|0.2|0.4", "TVD|a|0.3", "TVD|c|0.6"],
-    "jacobi-object": ["JAC|1.0|0.5|1.0", "JAC|1.0|2.0|0.5", "JAC|2.0|0.5|1.0"],
+    "jacobi-object": ["JAC|1.0|0.5|1.0", "JAC|1.0|2.0|0.5", "JAC|2.0|0.5|1.0", "JACD|1.0|0.5|2", "JACD|1.0|0.5|3"],
+    "jacobi-array-coefficients": ["JACA|1.0", "JACA|3.0"],
+    "jacobi-default-dim": ["H1dim|a|1.0|1.0|2", "H1dim|v|1.0|1.0|3", "H1|a|1.0|1.0|default"],
     "mg-object": ["MG|1.0|1.0", "MG|1.0|0.1"],
     "newton-direct": ["W1|newton|direct|0", "W1|newton|direct|1"],
     "bregman-amg": ["W1|bregman|amg|0", "W1|bregman|amg|1"],
